@@ -251,6 +251,12 @@ let ops : (string * (string list -> string)) list = [
         | PrPunct d -> "P:" ^ bytes_to_hex d
         | PrErr (d, e) -> "E:" ^ bytes_to_hex d ^ ":" ^ err_str e)
         (m_pr_run (List.map nat_of_int (str_to_ints sizes)) (m_pr_init src))) | _ -> failwith "args");
+  "bxd_sched", (function [e; segs; fin; sizes] ->
+      let src = { src_segs = segs_of segs; src_final = err_of fin } in
+      String.concat " " (List.map (function
+        | BdData d -> "D:" ^ bytes_to_hex d
+        | BdErr (d, x) -> "E:" ^ bytes_to_hex d ^ ":" ^ err_str x)
+        (m_bxd_trace (enc_of e) (List.map nat_of_int (str_to_ints sizes)) src)) | _ -> failwith "args");
   "pr_until", (function [segs; fin; lim] ->
       let src = { src_segs = segs_of segs; src_final = err_of fin } in
       (match m_pr_until (nat_of_int 100000) (nat_of_int (int_of_string lim)) src with
